@@ -106,18 +106,19 @@ type Proc struct {
 }
 
 type Kernel struct {
-	Procs      map[int]*Proc
-	NextPid    int
-	NextFile   int
-	FaultsLeft int    // K-FAULT: how many more calls may fail
-	FaultAt    string // site of the injected fault ("" none), as "<site>#<occurrence>"
-	FaultSeen  map[string]int
-	FaultProc  int
-	FaultErrno syscall.Errno
-	FaultIdx   int
-	ExecFails  bool // the program file is not executable (ENOEXEC/EACCES from execve)
-	Trace      []string
-	HostEuid   int
+	Procs           map[int]*Proc
+	NextPid         int
+	NextFile        int
+	FaultsLeft      int    // K-FAULT: how many more calls may fail
+	FaultAt         string // site of the injected fault ("" none), as "<site>#<occurrence>"
+	FaultSeen       map[string]int
+	FaultProc       int
+	FaultErrno      syscall.Errno
+	FaultIdx        int
+	ExecFails       bool // the program file is not executable (ENOEXEC/EACCES from execve)
+	Trace           []string
+	HostEuid        int
+	LastStatfsFlags int64
 	// id-map files written by the parent: path -> content
 	ProcFiles map[string]string
 	ProcOpen  map[int]string // fd -> path for /proc/<pid>/... files opened by writeFile
@@ -435,6 +436,7 @@ func (k *Kernel) syscall(trap, a1, a2, a3, a4, a5, a6 uintptr) (r1, r2 uintptr, 
 		}
 		st := (*syscall.Statfs_t)(sym.PtrOf(a2))
 		st.Flags = int64(sym.U64("statfs_flags"))
+		k.LastStatfsFlags = st.Flags
 		return 0, 0, 0
 
 	case syscall.SYS_PIVOT_ROOT:
